@@ -248,6 +248,38 @@ def _fwd_stub(model, data):
     return data.replace(xpos=xpos, sensordata=sens)
 
 
+def native_initial_replay(kind):
+    """R1: the real (jitted) env.initial of an environment constructed with distinctive, mutually disjoint randomisation ranges; the episode model's randomised
+    fields must lie in the intervals implied by the CONFIGURED ranges and the nominal values."""
+    def replay(model):
+        from lerax.env.unitree.g1 import locomotion, standing, standup
+        cls = {"locomotion": locomotion.G1Locomotion, "standing": standing.G1Standing, "standup": standup.G1Standup}[kind]
+        cfg = dict(friction_range=(0.31, 0.32), friction_loss_scale_range=(3.0, 3.1), armature_scale_range=(2.0, 2.1), mass_scale_range=(1.5, 1.6), torso_offset_range=(40.0, 41.0))
+        env = cls(**cfg)
+        init = jax.jit(lambda k: env.initial(key=k))
+        tb = int(env.torso_body_id)
+        for seed in (0, 1):
+            m = init(jax.random.key(seed)).model
+            nom_fl, nom_ar, nom_bm = np.asarray(env.nominal_friction_loss, np.float64), np.asarray(env.nominal_armature, np.float64), np.asarray(env.nominal_body_mass, np.float64)
+            pf = np.asarray(m.pair_friction, np.float64)[0:2, 0:2]
+            fl, ar, bm = np.asarray(m.dof_frictionloss, np.float64)[6:], np.asarray(m.dof_armature, np.float64)[6:], np.asarray(m.body_mass, np.float64)
+            eps = 1e-4
+
+            def within(x, nom, rng):
+                lo, hi = np.minimum(nom * rng[0], nom * rng[1]), np.maximum(nom * rng[0], nom * rng[1])
+                return bool(np.all(x >= lo - eps * (1 + np.abs(lo))) and np.all(x <= hi + eps * (1 + np.abs(hi))))
+            others = np.arange(bm.shape[0]) != tb
+            checks = dict(pair_friction=bool(np.all(pf >= cfg["friction_range"][0] - eps) and np.all(pf <= cfg["friction_range"][1] + eps)),
+                          dof_frictionloss=within(fl, nom_fl, cfg["friction_loss_scale_range"]), dof_armature=within(ar, nom_ar, cfg["armature_scale_range"]),
+                          body_mass=within(bm[others], nom_bm[others], cfg["mass_scale_range"]),
+                          torso_mass=bool(nom_bm[tb] * 1.5 + 40.0 - 1e-3 <= bm[tb] <= nom_bm[tb] * 1.6 + 41.0 + 1e-3))
+            if not all(checks.values()):
+                return dict(reproduced=True, route=f"R1 (real jitted {cls.__name__}.initial, real mjx, real randomize_model)", inputs=dict(constructor=cfg, key_seed=seed),
+                            observed=dict(within_configured_range=checks, torso_mass=float(bm[tb]), nominal_torso_mass=float(nom_bm[tb]), pair_friction=pf.tolist()))
+        return dict(reproduced=False, note="2 episodes: every randomised field within the configured ranges")
+    return replay
+
+
 def unit_initial(kind):
     def unit(S):
         env = env_of(kind)
@@ -289,7 +321,7 @@ def unit_initial(kind):
                     if ir.is_z3(v) or v != ir.const_float(e[ix]):
                         ok = False
             from lvc.vc import term_contains
-            S.fact(f"{kind}.initial/randomisation-uses-configured-ranges-and-nominals", ok and term_contains(c.operands[0].scalar(), kc), function=fn,
+            S.fact(f"{kind}.initial/randomisation-uses-configured-ranges-and-nominals", ok and term_contains(c.operands[0].scalar(), kc), function=fn, replay=native_initial_replay(kind),
                    what="randomize_model receives the environment's nominal values and configured ranges, with a key derived from the episode key")
             tagv = c.outputs[0].scalar()
             i = z3.Int("i")
